@@ -18,6 +18,8 @@ META = dict(
          "changed shape or metadata presence",
     trusted_base=[
         "Coq 8.16.1 kernel (coqc), vm_compute for evaluating the model on cases",
+        "translator gen/py2v.py: Gen_effects.v (control skeletons of _update_len / _update_lens, regenerated "
+        "from the source on every run) with the reading of its calls as effect kinds (EffectOrder*.v, Skel.runs)",
         "hand-written models ArrayModel.v / RaggedModel.v: README content is abstracted to facts "
         "(the snippets are a function of them, C06/C07); tied by in-Coq differential evaluation",
         "harness parsing of README prose (arrlib.readme_facts, raglib.ragged_readme_facts)",
